@@ -156,9 +156,63 @@ fn norm_loc(loc: &str) -> String {
     loc.to_string()
 }
 
+thread_local! {
+    /// Signature of the server document's hidden state (its line table, observed through the
+    /// public `get_line`) as of the last `read_back` on this thread. Two server documents with the
+    /// same text but different line tables have DIFFERENT futures, so they must not be merged
+    /// into one BFS state (merging them hid a seeded bug that only shows on the edit after next).
+    static LAST_SIG: std::cell::RefCell<String> = const { std::cell::RefCell::new(String::new()) };
+}
+
+fn line_sig_of(d: &TextDocument) -> String {
+    let text = d.get_text();
+    let n = text.matches('\n').count() + 2;
+    let mut parts = vec![];
+    for i in 0..n {
+        let r = std::panic::catch_unwind(AssertUnwindSafe(|| d.get_line(i).to_string()));
+        parts.push(match r {
+            Ok(l) => l,
+            Err(_) => "\u{3}panic".to_string(),
+        });
+    }
+    parts.join("\u{2}")
+}
+
+/// What `line_sig_of` yields for a document whose line table is consistent with its text.
+fn clean_sig(text: &str) -> String {
+    let mut offsets = vec![0usize];
+    for (i, c) in text.char_indices() {
+        if c == '\n' {
+            offsets.push(i + 1);
+        }
+    }
+    let n = text.matches('\n').count() + 2;
+    let mut parts = vec![];
+    for i in 0..n {
+        let start = offsets.get(i).copied().unwrap_or(text.len());
+        let end = offsets.get(i + 1).copied().unwrap_or(text.len());
+        parts.push(text[start..end].to_string());
+    }
+    parts.join("\u{2}")
+}
+
+/// BFS state key: the text alone when the hidden state is the canonical one for that text,
+/// otherwise text + signature.
+fn state_key(text: &str, sig: &str) -> String {
+    if sig == clean_sig(text) {
+        text.to_string()
+    } else {
+        format!("{text}\u{1}{sig}")
+    }
+}
+
 fn read_back(docs: &Documents, uri: &Url) -> String {
     match docs.get_text_document(uri) {
-        Ok(d) => d.get_text().to_string(),
+        Ok(d) => {
+            let sig = line_sig_of(&d);
+            LAST_SIG.with(|c| *c.borrow_mut() = sig);
+            d.get_text().to_string()
+        }
         Err(e) => machinery_failure(&format!("cannot read the server's document back: {e}")),
     }
 }
@@ -393,7 +447,7 @@ struct StateResult {
     /// (start kind, end kind | "full", verdict, outcome) → count
     tuples: BTreeMap<(String, String, String, String), u64>,
     /// new successor texts in enumeration order with the first edit that produced them
-    succ: Vec<(String, Edit)>,
+    succ: Vec<(String, Edit, String)>,
     /// class key → (count, what, replay) of the first case
     viol: BTreeMap<String, (u64, String, Value)>,
     sample: Option<Value>,
@@ -541,6 +595,7 @@ fn explore_state_on(
         };
         let ev = sp.event(&e);
         let out = step(&docs, uri, &snapshot, &ev);
+        let out_sig = LAST_SIG.with(|c| c.borrow().clone());
         res.transitions += 1;
 
         let (ks, ke) = match range {
@@ -600,9 +655,10 @@ fn explore_state_on(
                     res.sample = Some(json!({"before": st.text, "edit": sp.edit_json(&e),
                         "verdict": verdict_name(&verdict), "server": out.kind(), "after": new_text}));
                 }
-                if !seen.contains_key(new_text) && !local_new.contains_key(new_text) {
-                    local_new.insert(new_text.to_string(), ());
-                    res.succ.push((new_text.to_string(), e));
+                let key = state_key(new_text, &out_sig);
+                if !seen.contains_key(&key) && !local_new.contains_key(&key) {
+                    local_new.insert(key.clone(), ());
+                    res.succ.push((new_text.to_string(), e, key));
                 }
             }
         }
@@ -711,9 +767,9 @@ fn run(a: &Args) -> i32 {
                         rep.sample(s);
                     }
                 }
-                for (text, e) in r.succ {
-                    if !seen.contains_key(&text) {
-                        seen.insert(text.clone(), states.len() as u32);
+                for (text, e, key) in r.succ {
+                    if !seen.contains_key(&key) {
+                        seen.insert(key, states.len() as u32);
                         let init = states[from + k].init;
                         states.push(State {
                             text,
@@ -786,7 +842,7 @@ fn run(a: &Args) -> i32 {
     rep.set(
         "space",
         format!(
-            "initial docs = all strings of <= {MAX_DOC_SYMBOLS} symbols over the alphabet; per state: full replacement by each initial doc + (start,end,text) over all pairs of positions (every line, columns 0..=len16+1, plus line one past the last with columns 0,1) x insert_texts; all histories of <= {depth} edits (BFS, dedup by (client text, server text); last layer's successors are counted as states but not expanded)"
+            "initial docs = all strings of <= {MAX_DOC_SYMBOLS} symbols over the alphabet; per state: full replacement by each initial doc + (start,end,text) over all pairs of positions (every line, columns 0..=len16+1, plus line one past the last with columns 0,1) x insert_texts; all histories of <= {depth} edits (BFS, dedup by (client text, server text, server line table as observed through get_line); last layer's successors are counted as states but not expanded)"
         ),
     );
     rep.set("exhaustive", true);
